@@ -503,6 +503,18 @@ def flow_entries():
                     "BoxTrait::new(v)",
                     lambda p, c, alt: [(True, ok(("box", vint(ite(c, i_(p[1][1][0]), i_(alt))))))],
                     tags=("flow",)))
+    E.append(BEntry("flow_box_call_merge", [("x", "felt252"), ("c", "bool"), ("alt", "felt252")],
+                    "felt252", "pick_box(BoxTrait::new(x), c, alt).unbox()",
+                    lambda x, c, alt: [(True, ok(vint(ite(c, i_(x), i_(alt)))))], tags=("flow",),
+                    items="#[inline(never)]\nfn pick_box(b: Box<felt252>, c: bool, alt: felt252) -> "
+                          "Box<felt252> { let v = if c { b.unbox() } else { alt }; BoxTrait::new(v) }\n"
+                          "#[inline(never)]\nfn pick_member(p: Box<Pt>, c: bool, alt: felt252) -> "
+                          "Box<felt252> { let Pt { x, y: _ } = p.unbox(); let v = if c { x } else { alt }; "
+                          "BoxTrait::new(v) }\n"))
+    E.append(BEntry("flow_box_call_member_merge", [("x", "felt252"), ("c", "bool"),
+                                                   ("alt", "felt252")], "felt252",
+                    "pick_member(BoxTrait::new(Pt { x, y: 22 }), c, alt).unbox()",
+                    lambda x, c, alt: [(True, ok(vint(ite(c, i_(x), i_(alt)))))], tags=("flow",)))
     E.append(BEntry("flow_match_update", [("o", "Option<u8>"), ("s", "felt252")],
                     "(felt252, felt252)",
                     "let mut x = In2 { m: s, n: 1 }; match o { Some(v) => { x.m = v.into(); }, "
